@@ -16,7 +16,7 @@ import (
 // schema is accepted, the generated package does not compile. Every such Sprintf in internal/lang/generator whose
 // format starts with "%v." must be fed Type.ImportName as its first operand.
 func init() {
-	register(&Rule{ID: "R14.23", Props: []string{"C14", "C05"}, Floor: 10,
+	register(&Rule{ID: "R14.23", Props: []string{"C14", "C05"}, Floor: 1,
 		Doc: "qualified references to imported types are built with Type.ImportName (the name bound by the import line)",
 		Run: runR14_23})
 }
